@@ -622,9 +622,13 @@ namespace AIToolbox::POMDP {
                 updateBeliefPartialUnnormalized(pomdp, intermediateBelief, a, o, &nextBelief);
 
                 const auto nextBeliefProbability = nextBelief.sum();
-                if (checkEqualSmall(nextBeliefProbability, 0.0)) continue;
-                // Now normalized
-                nextBelief /= nextBeliefProbability;
+                // Normalize when we can. An observation that cannot happen from
+                // this belief must still contribute a valid alphavector: the
+                // alphavector we build is used as a lower bound at *other*
+                // beliefs too, where the observation may well happen. Any
+                // entry of lbVList is a valid choice there.
+                if (checkDifferentSmall(nextBeliefProbability, 0.0))
+                    nextBelief /= nextBeliefProbability;
 
                 const auto it = findBestAtPoint(nextBelief, std::begin(lbVList), std::end(lbVList), nullptr, unwrap);
 
